@@ -21,6 +21,9 @@ Two ties between the theorems of `PyribsProofs/C09.lean` and the current source:
             the sibling of the same parent    -> the first batch that component emits differs;
       (iv)  emitters given ONE shared es_kwargs dict object vs. separate equal dicts
                                               -> bit-identical; the caller's dict is unchanged;
+      (vi)  a fresh interpreter with 8 OpenMP / BLAS threads (harness/c09_kmeans_probe.py) builds the
+            k-means archive repeatedly for the seeds 0, np.int64(0), 1, SeedSequence(0)
+                                              -> centroids bitwise equal per seed, different between seeds;
       (v)   k-means CVT archives (built with 8 OpenMP threads allowed, >= 1000 samples in the
             archives stratum) constructed 6 more times in the process -> centroids bitwise equal.
     Around every library call the states of `np.random` and `random` are compared
@@ -82,7 +85,8 @@ LEVEL_TEXT = ("proof (non-interference, pickle continuation: all traces / progra
 RULE = ("whole pipelines = archive kind (Grid, CVT x {kmeans, random, sobol, scrambled_sobol, halton, custom}, "
         "SlidingBoundaries, Proximity) x 1-3 emitters (EvolutionStrategy x 5 strategies x rankers, "
         "GradientArborescence, GradientOperator, Gaussian, IsoLine, GeneticAlgorithm) x {Scheduler, "
-        "BanditScheduler} x {int, int >= 2**32, root SeedSequence, spawned child / grandchild "
+        "BanditScheduler} x {int, 0 and np.int64(0) (at a fixed position for every seeded component), int >= 2**32, "
+        "root SeedSequence, spawned child / grandchild "
         "SeedSequence(x).spawn(n)[i]} seeds for "
         "every component (built anew per run), 2-8 iterations; each case is run 4 times (two global "
         "states with different interleaved foreign draws, pickled at a random iteration, one seed changed), and "
@@ -212,6 +216,8 @@ def seed_kind(spec):
         return "child"
     if spec.get("ss"):
         return "SeedSequence"
+    if spec.get("seed", 1) == 0:
+        return "np.int64(0)" if spec.get("np") else "0"  # the falsy seeds: `if seed:` / `seed or ...` lose them
     return "bigint" if spec.get("seed", 0) >= 2**32 else "int"  # bigint: an int that does not fit in 32 bits
 
 
@@ -227,7 +233,9 @@ def mkseed(v, spec, sibling=False):
                 i = (i + 1) % n
             s = s.spawn(n)[i]
         return s
-    return np.random.SeedSequence(v) if spec.get("ss") else v
+    if spec.get("ss"):
+        return np.random.SeedSequence(v)
+    return np.int64(v) if spec.get("np") else v
 
 
 def make_archive(spec, seed, sibling=False):
@@ -906,14 +914,23 @@ def base_case(rng, n_iter):
 
 
 SEED_KINDS = ["child", "int", "SeedSequence"]
+# the seed kind of a stratum's main component by position in the stratum (cyclic).  Seed 0 -- as int and as
+# np.int64 -- reaches every seeded component in every run: the archives (k-means first), every simple emitter and
+# gradient-operator configuration, GA emitters, and through the eskw stratum every evolution strategy
+ES_KIND_SEQ = ["child", "zero", "int", "SeedSequence", "npzero", "child", "int", "zero", "SeedSequence", "child",
+               "npzero", "int"]
+DQD_KIND_SEQ = ["zero", "child", "int", "npzero", "child", "zero", "SeedSequence", "int", "npzero", "child"]
 
 
 def seed_fields(rng, sk=None):
     """seed / ss / child entries of a component spec; sk forces the seed kind."""
-    sk = sk or rng.choice(["int", "int", "SeedSequence", "child", "child", "bigint"])
+    sk = sk or rng.choice(["int", "int", "SeedSequence", "child", "child", "bigint", "zero", "npzero"])
     out = {"seed": rng.randrange(1, 10**6), "ss": sk in ("SeedSequence", "child")}
     if sk == "bigint":  # numpy takes any non-negative int; libraries underneath may only take 32 bits
         out["seed"] += rng.choice([2**32 - 10**6, 2**32, 2**63, 2**64, 2**100])
+    if sk in ("zero", "npzero"):  # seed 0 is a seed like any other, but falsy
+        out["seed"] = 0
+        out["np"] = sk == "npzero"
     if sk == "child":
         path = []
         for _ in range(rng.choice([1, 1, 1, 2])):  # children and grandchildren
@@ -1053,8 +1070,11 @@ def strata(ctx):
     arch_combos = [("grid", None), ("sliding", None), ("proximity", None)] + [("cvt", m) for m in CVT_METHODS]
     # k-means (the default method) hands its seed to scikit-learn, which takes less than numpy does: those
     # combinations come first in every run, the rest of the cross product follows in shuffled order
-    cyc_arch = Cycle(ctx, "arch", [(k, m, sk) for (k, m) in arch_combos for sk in SEED_KINDS + ["bigint"]],
-                     first=[("cvt", "kmeans", sk) for sk in ("SeedSequence", "bigint", "child")])
+    cyc_arch = Cycle(ctx, "arch", [(k, m, sk) for (k, m) in arch_combos
+                                   for sk in SEED_KINDS + ["bigint", "zero", "npzero"]],
+                     first=[("cvt", "kmeans", sk) for sk in ("zero", "SeedSequence", "npzero", "bigint", "child")] +
+                     [("grid", None, "zero"), ("sliding", None, "npzero"), ("proximity", None, "zero"),
+                      ("cvt", "random", "npzero"), ("cvt", "scrambled_sobol", "zero"), ("cvt", "halton", "npzero")])
     rot = {"es": 0, "dqd": 0}  # the seed kind of the stratum's main emitter rotates: child, int, SeedSequence, ...
     # the rankers that draw (random directions) come first in every run, given as the class itself first
     r0 = ctx.rng("es-first")
@@ -1080,6 +1100,7 @@ def strata(ctx):
     cyc_dqd = Cycle(ctx, "dqd", [("ga", es, r) for es in ES_NAMES for r in ("imp", "2imp", "rd", "obj")]
                     + [("gop", j, None) for j in range(len(GOP_LATTICE))], first=dqd_first)
     simple_i = [r0.randrange(len(SIMPLE_LATTICE))]
+    simple_0 = simple_i[0] + 1
     cyc_mixed = Cycle(ctx, "mixed", [(s, am, ra) for s in ("plain", "bandit") for am in ("batch", "single")
                                      for ra in (False, True)])
 
@@ -1092,7 +1113,9 @@ def strata(ctx):
         c["archive"] = archive_spec(rng, kind, method, sk, big=True)  # k-means: >= 1000 samples in this stratum
         kind1, opts1 = SIMPLE_LATTICE[simple_i[0] % len(SIMPLE_LATTICE)]  # the simple emitters take turns
         simple_i[0] += 1
-        c["emitters"] = [simple_emitter(rng, kind1, opts=opts1)] + \
+        j = simple_i[0] - simple_0  # every third case the lattice emitter is seeded with 0 (int / np.int64 in turn)
+        sk1 = ("zero" if (j // 3) % 2 == 0 else "npzero") if j % 3 == 1 else None
+        c["emitters"] = [simple_emitter(rng, kind1, sk=sk1, opts=opts1)] + \
             [simple_emitter(rng) for _ in range(rng.randint(0, 1))]
         c["change"] = 0 if rng.random() < 0.6 else rng.randrange(4)
         c["sched"] = rng.choice(["plain", "plain", "bandit"])
@@ -1106,7 +1129,7 @@ def strata(ctx):
         # (a ProximityArchive only works with the novelty ranker)
         c["archive"] = archive_spec(rng, rng.choice(["grid", "grid", "cvt", "sliding"] +
                                                     ([] if ranker in ("rd", "2rd") else ["proximity"])))
-        sk = SEED_KINDS[rot["es"] % 3]
+        sk = ES_KIND_SEQ[rot["es"] % len(ES_KIND_SEQ)]
         rot["es"] += 1
         i = rot["es"]
         c["emitters"] = [es_emitter(rng, c["archive"]["kind"], es, ranker, sk=sk, tight=True if i % 2 == 1 else None)]
@@ -1133,7 +1156,7 @@ def strata(ctx):
         n_iter = rng.randint(3, 5 * L)
         c = base_case(rng, n_iter)
         c["archive"] = archive_spec(rng, rng.choice(["grid", "grid", "cvt"]))
-        sk = SEED_KINDS[rot["dqd"] % 3]
+        sk = DQD_KIND_SEQ[rot["dqd"] % len(DQD_KIND_SEQ)]
         rot["dqd"] += 1
         if kind == "ga":
             c["emitters"] = [es_emitter(rng, c["archive"]["kind"], es, ranker, kind="ga", sk=sk)]
@@ -1178,8 +1201,10 @@ def strata(ctx):
         c["archive"] = archive_spec(rng, rng.choice(["grid", "grid", "cvt"]))
         n = rng.randint(2, 3)
         ems = []
-        for _ in range(n):
-            e = es_emitter(rng, c["archive"]["kind"], es, kind=kind, tight=False)
+        for k_ in range(n):
+            # the first emitter of each of these pipelines is seeded with 0: every evolution strategy gets it
+            sk_ = (["zero", "npzero"][kw_i[0] % 2]) if k_ == 0 else None
+            e = es_emitter(rng, c["archive"]["kind"], es, kind=kind, tight=False, sk=sk_)
             e["eskw"] = kw
             e["restart"] = rng.choice([1, 2, 2, "basic"])  # restarts rebuild the strategy from its stored options
             ems.append(e)
@@ -1281,6 +1306,10 @@ def run(ctx):
         translate(ctx)
         bad = ctx.c09_bad_sites
     broken = bool(bad) or bool(getattr(ctx, "c09_bad_spawns", []))
+    # (vi) the k-means archive under 8 OpenMP threads, in a fresh interpreter (2-3 s)
+    probe_failures = run_probe(ctx, 5 if ctx.quick else 25)
+    for f, c in probe_failures[:2]:
+        ctx.fail(f, c)
     gens = strata(ctx)
     order = ["archives", "es", "dqd", "mixed", "eskw"]
     if broken:
@@ -1385,7 +1414,8 @@ def run(ctx):
         ctx.notes.append(f"warning: {rejected} of {ctx.evaluations} generated pipelines were rejected by pyribs")
     uniq, kept = set(), []
     for f, c in ctx.failures:
-        sig = signature(c, f) if "archive" in c else ("site-table",)
+        sig = (signature(c, f) if "archive" in c else ("probe", c.get("seed"))
+               if c.get("stratum") == "kmeans-thread-probe" else ("site-table",))
         if sig in uniq:
             ctx.count("duplicate-failure-suppressed")
             continue
@@ -1413,8 +1443,69 @@ def site_table_summary(ctx):
     return " | ".join(parts)
 
 
+PROBE = os.path.join(core.VERIF, "harness", "c09_kmeans_probe.py")
+PROBE_DISTINCT = [("0", "1"), ("np.int64(0)", "1"), ("1", "SeedSequence(0)")]  # pairs of seeds that must differ
+
+
+def kmeans_thread_probe(reps, labels=None):
+    """(vi) `./check` pins OMP_NUM_THREADS / OPENBLAS_NUM_THREADS to 1, which hides every effect of the order in
+    which OpenMP threads reduce.  A fresh interpreter with 8 threads (the tree under test first on its path)
+    constructs CVTArchive(centroid_method="kmeans", cells=50, samples=4000) `reps` times for each of the seeds 0,
+    np.int64(0), 1, SeedSequence(0).  Returns (list of (seed label, what), info)."""
+    env = dict(os.environ)
+    for k in ("OMP_NUM_THREADS", "OPENBLAS_NUM_THREADS", "MKL_NUM_THREADS"):
+        env[k] = "8"
+    env["PYTHONPATH"] = os.pathsep.join([core.REPO] + [x for x in env.get("PYTHONPATH", "").split(os.pathsep) if x])
+    try:
+        r = subprocess.run([sys.executable, PROBE, str(reps)] + list(labels or []), stdout=subprocess.PIPE,
+                           stderr=subprocess.PIPE, text=True, timeout=300, env=env, cwd="/tmp", check=False)
+    except subprocess.TimeoutExpired as e:
+        raise core.Infra(f"k-means thread probe timed out: {e}") from e
+    line = next((ln for ln in r.stdout.splitlines() if ln.startswith("C09PROBE ")), None)
+    if line is None:
+        raise core.Infra(f"k-means thread probe crashed: {r.stderr[-400:]}")
+    res = json.loads(line[len("C09PROBE "):])
+    fails = []
+    for label, v in res["seeds"].items():
+        if v["error"]:
+            fails.append((label, f"CVTArchive(centroid_method='kmeans', seed={label}) was refused with "
+                                 f"{v['error'].split(':')[0]}", v["error"]))
+        elif v["distinct"] > 1:
+            fails.append((label, f"CVTArchive(centroid_method='kmeans', cells=50, samples=4000, seed={label}) built "
+                                 f"{res['reps']} times in one process with 8 OpenMP threads has {v['distinct']} "
+                                 f"different centroid arrays (bitwise): k-means centroids are not a function of the seed",
+                          f"largest difference {v['max_abs_diff']:.3g}"))
+    first = {label: (v["digests"] or [None])[0] for label, v in res["seeds"].items()}
+    for a, b in PROBE_DISTINCT:
+        if a in first and b in first and first[a] is not None and first[a] == first[b]:
+            fails.append((a, f"CVTArchive k-means centroids are identical for the different seeds {a} and {b}", None))
+    if "0" in first and "np.int64(0)" in first and None not in (first["0"], first["np.int64(0)"]) \
+            and first["0"] != first["np.int64(0)"] and not any(f[0] in ("0", "np.int64(0)") for f in fails):
+        fails.append(("np.int64(0)", "CVTArchive k-means centroids differ between seed=0 and seed=np.int64(0)", None))
+    return fails, {"reps": res["reps"], "openmp_threads": res.get("openmp_threads"), "tree": res.get("ribs"),
+                   "distinct_per_seed": {k: v["distinct"] for k, v in res["seeds"].items()}}
+
+
+def run_probe(ctx, reps, labels=None):
+    t0 = time.time()
+    fails, info = kmeans_thread_probe(reps, labels)
+    info["seconds"] = round(time.time() - t0, 2)
+    ctx.extra["kmeans_thread_probe"] = info
+    ctx.evaluations += 1
+    ctx.count("vi:kmeans-thread-probe" + ("" if not fails else ":failed"))
+    out = []
+    for label, what, detail in fails:
+        f = Failure("oracle", what + " :: subprocess probe, OMP_NUM_THREADS=8", detail=detail)
+        out.append((f, {"stratum": "kmeans-thread-probe", "seed": label, "reps": reps,
+                        "ops": [], "note": "replay: harness/c09_kmeans_probe.py <reps> <seed> with 8 OpenMP threads"}))
+    return out
+
+
 def replay(ctx, case):
     _init_spies()
+    if case.get("stratum") == "kmeans-thread-probe":
+        got = run_probe(ctx, max(int(case.get("reps", 6)), 6), [case["seed"]])
+        return got[0][0] if got else None
     if case.get("stratum") == "site-table":
         if not hasattr(ctx, "c09_bad_sites"):
             translate(ctx)
